@@ -2,6 +2,7 @@
 from __future__ import annotations
 
 import ast
+import re
 
 from ..core import INCONCLUSIVE, OK, VIOLATION, Ctx, canon, is_self_attr, local_defs
 from ..model import AnalysisError, body_walk, norm
@@ -126,8 +127,9 @@ def r15_1(ctx: Ctx):
     if nc is not None and "get_key" in nc.methods:
         g = nc.methods["get_key"]
         r2 = [r for r in body_walk(g.node) if isinstance(r, ast.Return)]
-        ok = len(r2) == 1 and canon(r2[0].value).endswith(".tobytes()")
-        obs.append(ctx.ob("R15.1", g, r2[0] if r2 else g.node, status=OK if ok else VIOLATION, detail="sibling key function (NumpyCache) uses tobytes()" if ok else f"NumpyCache.get_key is `{norm(r2[0].value) if r2 else '?'}`: cached objective values can be returned for a different genome", construct="sibling-key"))
+        ok = len(r2) == 1 and canon(r2[0].value, local_defs(g)).endswith(".tobytes()")
+        k2 = _injective(r2[0].value, g.params()[-1])[0] if len(r2) == 1 else "unknown"
+        obs.append(ctx.ob("R15.1", g, r2[0] if r2 else g.node, status=OK if (ok or k2 == "injective") else VIOLATION if k2 == "lossy" else INCONCLUSIVE, detail="sibling key function (NumpyCache) uses tobytes()" if ok else f"NumpyCache.get_key is `{norm(r2[0].value) if r2 else '?'}`: cached objective values can be returned for a different genome", construct="sibling-key"))
     # every identifier handed to treelib comes from get_individual_id
     nbc = ctx.prog.cls("NearestBetterClustering")
     n = 0
@@ -140,8 +142,15 @@ def r15_1(ctx: Ctx):
                         if a is None:
                             continue
                         n += 1
-                        ok = isinstance(a, ast.Call) and norm(a.func) == "get_individual_id"
-                        obs.append(ctx.ob("R15.1", m, a, status=OK if ok else VIOLATION, detail=f"{kname} computed by get_individual_id" if ok else f"tree {kname} `{norm(a)[:50]}` is not computed by get_individual_id"))
+                        if kname == "parent" and isinstance(a, ast.Constant) and a.value is None:
+                            continue
+                        mdefs = local_defs(m)
+                        ar = a
+                        while isinstance(ar, ast.Name) and len(mdefs.get(ar.id, [])) == 1:
+                            ar = mdefs[ar.id][0]
+                        ok = isinstance(ar, ast.Call) and norm(ar.func) == "get_individual_id"
+                        lossy = isinstance(ar, ast.Call) and norm(ar.func) in ("str", "repr", "hash") or isinstance(ar, ast.JoinedStr)
+                        obs.append(ctx.ob("R15.1", m, a, status=OK if ok else VIOLATION if lossy else INCONCLUSIVE, detail=f"{kname} computed by get_individual_id" if ok else f"tree {kname} `{norm(a)[:50]}` is not computed by get_individual_id"))
     if n < 3:
         raise AnalysisError(f"only {n} identifier arguments to create_node found (3 confirmed by hand)")
     return obs
@@ -184,42 +193,73 @@ def r15_3(ctx: Ctx):
         v = st[0].value
         t = canon(v, defs)
         want = [f"sorted({arg},reverse=True)[:int(len(sorted({arg},reverse=True))*{tf})]", f"sorted({arg},reverse=True)[:int(len({arg})*{tf})]"]
+        want += [f"sorted({arg},reverse=True)[:int({tf}*len({arg}))]", f"sorted({arg},reverse=True)[:int({tf}*len(sorted({arg},reverse=True)))]", f"sorted({arg},reverse=True)[:math.floor(len({arg})*{tf})]"]
         ok = t in want
         why = f"self.individuals = `{t[:110]}`; expected the best-first sort truncated to the prefix int(n * truncation_factor)"
-    obs.append(ctx.ob("R15.3", init, st[0] if st else init.node, status=OK if ok else VIOLATION, detail="best-first order (Individual order, once), prefix truncation int(n * truncation_factor)" if ok else why, construct="order-truncate"))
+        definite = ("sorted(" in t and "reverse=True" not in t) or "key=" in t or "[-" in t or ("sorted(" not in t and ".sort(" not in t) or "round(" in t or "ceil(" in t or "+1" in t
+    obs.append(ctx.ob("R15.3", init, st[0] if st else init.node, status=OK if ok else VIOLATION if (len(st) != 1 or definite) else INCONCLUSIVE, detail="best-first order (Individual order, once), prefix truncation int(n * truncation_factor)" if ok else why, construct="order-truncate"))
     ps = nbc.methods["_prepare_spanning_tree"]
     psn = ps.self_name()
     loops = [n for n in ps.node.body if isinstance(n, ast.For)]
     okl = len(loops) == 1 and canon(loops[0].iter) == f"{psn}.individuals[1:]" and isinstance(loops[0].target, ast.Name)
-    obs.append(ctx.ob("R15.3", ps, loops[0] if loops else ps.node, status=OK if okl else VIOLATION, detail="every individual after the best is attached" if okl else f"the spanning tree is built over `{norm(loops[0].iter) if loops else '?'}`, not over every individual after the best", construct="attach-loop"))
+    it_t = canon(loops[0].iter, local_defs(ps)) if len(loops) == 1 else ""
+    if not okl and len(loops) == 1 and it_t == f"{psn}.individuals[1:]" and isinstance(loops[0].target, ast.Name):
+        okl = True
+    definite = len(loops) == 1 and re.fullmatch(re.escape(f"{psn}.individuals") + r"(\[[-\d:]*\])?", it_t) is not None and not okl
+    obs.append(ctx.ob("R15.3", ps, loops[0] if loops else ps.node, status=OK if okl else VIOLATION if definite else INCONCLUSIVE, detail="every individual after the best is attached" if okl else f"the spanning tree is built over `{norm(loops[0].iter) if loops else '?'}`, not over every individual after the best", construct="attach-loop"))
     if okl:
         ind = loops[0].target.id
         ldefs = {}
         for n in ast.walk(loops[0]):
             if isinstance(n, ast.Assign) and len(n.targets) == 1 and isinstance(n.targets[0], ast.Name):
                 ldefs.setdefault(n.targets[0].id, []).append(n)
-        rootdefs = [n for n in ps.node.body if isinstance(n, ast.Assign) and norm(n.targets[0]) == "root"]
-        okroot = len(rootdefs) == 1 and canon(rootdefs[0].value) == f"{psn}.individuals[0]"
-        bs = ldefs.get("better_individuals", [])
-        vals = sorted(canon(n.value) for n in bs)
-        okb = vals == sorted([f"[root]", f"{psn}.individuals[:{psn}.individuals.index({ind})]"])
-        ifs = [n for n in loops[0].body if isinstance(n, ast.If)]
-        oktie = any(canon(i.test) in (f"{ind}==root", f"root=={ind}") and any(isinstance(s, ast.Assign) and canon(s.value) == "[root]" for s in i.body) for i in ifs)
-        obs.append(ctx.ob("R15.3", ps, bs[0] if bs else loops[0], status=OK if (okroot and okb and oktie) else VIOLATION, detail="better-set = prefix before the individual; a tie with the best attaches to the best" if (okroot and okb and oktie) else f"better-set definitions `{vals}` (root ok: {okroot}, tie rule ok: {oktie}) do not implement 'strictly better = earlier in the best-first order, ties with the best attach to the best'", construct="better-set"))
+        pdefs = local_defs(ps)
+        calls = [c for c in ast.walk(loops[0]) if isinstance(c, ast.Call) and norm(c.func) == f"{psn}._find_nearest_better"]
+        st_b = INCONCLUSIVE
+        why_b = "cannot find the better-set handed to _find_nearest_better"
+        if len(calls) == 1 and len(calls[0].args) == 2:
+            import copy
+
+            from ..core import _Subst
+
+            bexp = _Subst(pdefs, 4).visit(copy.deepcopy(calls[0].args[1]))
+            root_t = f"{psn}.individuals[0]"
+            prefix_t = f"{psn}.individuals[:{psn}.individuals.index({ind})]"
+
+            def is_root_list(e):
+                return isinstance(e, ast.List) and len(e.elts) == 1 and canon(e.elts[0], pdefs) == root_t
+
+            why_b = f"better-set `{norm(calls[0].args[1])}` = `{canon(bexp)[:100]}`"
+            if isinstance(bexp, ast.IfExp):
+                tie = canon(bexp.test, pdefs)
+                tie_eq = tie in (f"{ind}=={root_t}", f"{root_t}=={ind}", f"not{ind}!={root_t}")
+                tie_ne = tie in (f"{ind}!={root_t}", f"{root_t}!={ind}", f"not{ind}=={root_t}")
+                a, b = (bexp.body, bexp.orelse) if tie_eq else (bexp.orelse, bexp.body)
+                if (tie_eq or tie_ne) and is_root_list(a) and canon(b) == prefix_t:
+                    st_b = OK
+                elif (tie_eq or tie_ne) and is_root_list(b) and canon(a) == prefix_t:
+                    st_b, why_b = VIOLATION, "the tie rule is inverted: individuals tied with the best get the prefix, all others attach to the best"
+                elif (tie_eq or tie_ne) and is_root_list(a) and re.fullmatch(re.escape(f"{psn}.individuals[:") + r".*\]", canon(b)):
+                    st_b, why_b = VIOLATION, f"better-set `{canon(b)[:80]}` is not the prefix strictly before the individual in the best-first order"
+            elif canon(bexp) == prefix_t:
+                st_b, why_b = VIOLATION, "no tie rule: an individual tied with the best has an empty better-set or attaches to an equal one"
+            elif re.fullmatch(re.escape(f"{psn}.individuals[:") + r".*\]", canon(bexp)) or canon(bexp) == f"{psn}.individuals":
+                st_b, why_b = VIOLATION, f"better-set `{canon(bexp)[:80]}` is not the prefix strictly before the individual"
+        obs.append(ctx.ob("R15.3", ps, calls[0] if calls else loops[0], status=st_b, detail="better-set = prefix before the individual; a tie with the best attaches to the best" if st_b == OK else f"{why_b}: does not implement 'strictly better = earlier in the best-first order, ties with the best attach to the best'", construct="better-set"))
         # the node's distance/parent come from _find_nearest_better(ind, better)
         calls = [c for c in ast.walk(loops[0]) if isinstance(c, ast.Call) and norm(c.func) == f"{psn}._find_nearest_better"]
-        okc = len(calls) == 1 and [canon(a) for a in calls[0].args] == [ind, "better_individuals"]
-        obs.append(ctx.ob("R15.3", ps, calls[0] if calls else loops[0], status=OK if okc else VIOLATION, detail="nearest better found among the better-set" if okc else "nearest-better search is not applied to (individual, its better-set)", construct="nearest-call"))
+        okc = len(calls) == 1 and len(calls[0].args) == 2 and canon(calls[0].args[0]) == ind
+        obs.append(ctx.ob("R15.3", ps, calls[0] if calls else loops[0], status=OK if okc else INCONCLUSIVE, detail="nearest better found among the better-set" if okc else "nearest-better search is not applied to (individual, its better-set)", construct="nearest-call"))
     fn = nbc.methods["_find_nearest_better"]
     i_p, b_p = fn.params()[1], fn.params()[2]
     fdefs = local_defs(fn)
     rets = [r for r in body_walk(fn.node) if isinstance(r, ast.Return)]
     t = canon(rets[0].value, fdefs) if len(rets) == 1 else ""
-    import re
 
     okn = bool(re.search(r"np\.linalg\.norm\(%s\.genome-np\.array\(\[(\w+)\.genomefor\1in%s\]\),axis=1\)" % (i_p, b_p), t)) and "np.argmin(" in t and t.count("np.argmax") == 0
     ordok = "ord=" not in t
-    obs.append(ctx.ob("R15.3", fn, rets[0] if rets else fn.node, status=OK if (okn and ordok) else VIOLATION, detail="nearest = argmin of Euclidean distances to the better individuals" if (okn and ordok) else f"_find_nearest_better returns `{t[:120]}`: not (min Euclidean distance, the individual attaining it)", construct="nearest"))
+    definite = "np.argmax(" in t or not ordok or ("np.argmin(" in t and "np.linalg.norm(" in t and "axis=0" in t) or ("np.abs(" in t and "np.linalg.norm" not in t)
+    obs.append(ctx.ob("R15.3", fn, rets[0] if rets else fn.node, status=OK if (okn and ordok) else VIOLATION if definite else INCONCLUSIVE, detail="nearest = argmin of Euclidean distances to the better individuals" if (okn and ordok) else f"_find_nearest_better returns `{t[:120]}`: not (min Euclidean distance, the individual attaining it)", construct="nearest"))
     return obs
 
 
@@ -228,48 +268,86 @@ def r15_4(ctx: Ctx):
     obs = []
     nbc = ctx.prog.cls("NearestBetterClustering")
     ps = nbc.methods["_prepare_spanning_tree"]
+    pdefs = local_defs(ps)
     first = [c for c in ps.node.body if isinstance(c, ast.Expr) and isinstance(c.value, ast.Call) and norm(c.value.func).endswith("create_node")]
-    okr = False
+    st_r = INCONCLUSIVE
+    INF = ("np.inf", "float('inf')", 'float("inf")', "math.inf", "numpy.inf", "np.Inf", "np.infty")
     if first:
         data = next((k.value for k in first[0].value.keywords if k.arg == "data"), None)
+        while isinstance(data, ast.Name) and len(pdefs.get(data.id, [])) == 1:
+            data = pdefs[data.id][0]
         if isinstance(data, ast.Dict):
             for k, v in zip(data.keys, data.values):
                 if isinstance(k, ast.Constant) and k.value == "distance":
-                    okr = norm(v) in ("np.inf", "float('inf')", "math.inf")
-    obs.append(ctx.ob("R15.4", ps, first[0] if first else ps.node, status=OK if okr else VIOLATION, detail="the best individual is a seed by construction (distance inf)" if okr else "the root of the spanning tree does not get distance inf: the best individual is not guaranteed to be a cluster seed", construct="root-inf"))
+                    vt = canon(v, pdefs)
+                    st_r = OK if vt in INF else VIOLATION if (isinstance(v, ast.Constant) or vt.startswith("-") or vt in ("np.nan", "None")) else INCONCLUSIVE
+            if st_r == INCONCLUSIVE and not any(isinstance(k, ast.Constant) and k.value == "distance" for k in data.keys) and all(isinstance(k, ast.Constant) for k in data.keys):
+                st_r = VIOLATION
+    obs.append(ctx.ob("R15.4", ps, first[0] if first else ps.node, status=st_r, detail="the best individual is a seed by construction (distance inf)" if st_r == OK else "the root of the spanning tree does not get distance inf: the best individual is not guaranteed to be a cluster seed", construct="root-inf"))
     d = nbc.methods["distances"]
+    ddefs = local_defs(d)
     rets = [r for r in body_walk(d.node) if isinstance(r, ast.Return)]
-    okd = False
-    if len(rets) == 1 and isinstance(rets[0].value, ast.ListComp):
+    st_d = INCONCLUSIVE
+    if len(rets) == 1:
         lc = rets[0].value
-        conds = [canon(c) for g in lc.generators for c in g.ifs]
-        okd = canon(lc.generators[0].iter).endswith(".tree.all_nodes()") and any(c.startswith("notnp.isinf(") or c.startswith("np.isfinite(") for c in conds) and len(conds) == 1
-    obs.append(ctx.ob("R15.4", d, rets[0] if rets else d.node, status=OK if okd else VIOLATION, detail="distances = finite edge lengths of all nodes" if okd else "`distances` does not range over exactly the finite edge lengths (inf of the root included, or edges missing): the mean is wrong", construct="finite-distances"))
+        while isinstance(lc, ast.Name) and len(ddefs.get(lc.id, [])) == 1:
+            lc = ddefs[lc.id][0]
+        if isinstance(lc, ast.Call) and norm(lc.func) in ("list", "np.array") and len(lc.args) == 1:
+            lc = lc.args[0]
+        if isinstance(lc, (ast.ListComp, ast.GeneratorExp)) and len(lc.generators) == 1 and canon(lc.generators[0].iter, ddefs).endswith(".tree.all_nodes()") and isinstance(lc.generators[0].target, ast.Name):
+            nv = lc.generators[0].target.id
+            dist = (f"{nv}.data['distance']", f'{nv}.data["distance"]')
+            conds = [canon(c) for c in lc.generators[0].ifs]
+            elt_ok = canon(lc.elt) in dist
+            fin = [c for c in conds if any(c in (f"notnp.isinf({x})", f"np.isfinite({x})", f"{x}!=np.inf", f"{x}<np.inf", f"notmath.isinf({x})", f"{x}!=float('inf')") for x in dist)]
+            if elt_ok and len(conds) == 1 and fin:
+                st_d = OK
+            elif elt_ok and not conds:
+                st_d = VIOLATION  # the root's inf is included: the mean is inf and nothing is ever cut
+            elif elt_ok and any(any(c in (f"np.isinf({x})", f"{x}==np.inf") for x in dist) for c in conds):
+                st_d = VIOLATION
+    obs.append(ctx.ob("R15.4", d, rets[0] if rets else d.node, status=st_d, detail="distances = finite edge lengths of all nodes" if st_d == OK else "`distances` does not range over exactly the finite edge lengths (inf of the root included, or edges missing): the mean is wrong" if st_d == VIOLATION else "cannot tell which edge lengths `distances` ranges over", construct="finite-distances"))
     fr = nbc.methods["_find_root_nodes"]
     sn = fr.self_name()
     defs = local_defs(fr)
     rets = [r for r in body_walk(fr.node) if isinstance(r, ast.Return)]
-    okc = False
+    st_c = INCONCLUSIVE
     why = "cut not recognised"
-    if len(rets) == 1 and isinstance(rets[0].value, ast.ListComp) and len(rets[0].value.generators) == 1 and len(rets[0].value.generators[0].ifs) == 1:
-        cond = rets[0].value.generators[0].ifs[0]
+    rv = rets[0].value if len(rets) == 1 else None
+    while isinstance(rv, ast.Name) and len(defs.get(rv.id, [])) == 1:
+        rv = defs[rv.id][0]
+    if isinstance(rv, ast.ListComp) and len(rv.generators) == 1 and len(rv.generators[0].ifs) == 1:
+        from .c08 import _strip_not
+
+        cond = _strip_not(rv.generators[0].ifs[0])
         if isinstance(cond, ast.Compare) and len(cond.ops) == 1:
             l, r, op = cond.left, cond.comparators[0], cond.ops[0]
-            lt = canon(l).replace('"', "'")
+            if isinstance(op, (ast.Lt, ast.LtE)):
+                l, r, op = r, l, (ast.Gt() if isinstance(op, ast.Lt) else ast.GtE())
+            lt = canon(l, defs).replace('"', "'")
             rt = canon(r, defs)
-            if not isinstance(op, ast.Gt):
-                why = f"cut uses `{type(op).__name__}` instead of the strict `>`: individuals exactly at the threshold become seeds"
-            elif not lt.endswith(".data['distance']"):
-                why = f"cut compares `{norm(l)}`, not the node's distance"
-            elif not (f"np.mean({sn}.distances)" in rt and f"{sn}.distance_factor" in rt):
-                why = f"threshold `{rt[:100]}` is not mean(finite distances) x distance_factor"
+            if not lt.endswith(".data['distance']"):
+                if rt.replace('"', "'").endswith(".data['distance']") and isinstance(op, (ast.Gt, ast.GtE)):
+                    st_c, why = VIOLATION, "the cut keeps nodes whose distance is BELOW the threshold"
+                else:
+                    why = f"cut compares `{norm(l)}`, not the node's distance"
+            elif isinstance(op, ast.GtE):
+                st_c, why = VIOLATION, "cut uses `>=` instead of the strict `>`: individuals exactly at the threshold become seeds"
+            elif not isinstance(op, ast.Gt):
+                why = f"cut uses `{type(op).__name__}`"
+            elif f"np.mean({sn}.distances)" in rt and f"{sn}.distance_factor" in rt:
+                st_c = OK
+            elif f"{sn}.distances" in rt and any(k in rt for k in ("np.median(", "np.max(", "np.min(", "np.sum(")):
+                st_c, why = VIOLATION, f"threshold `{rt[:100]}` is not mean(finite distances) x distance_factor"
+            elif f"np.mean({sn}.distances)" in rt and "factor" not in rt:
+                st_c, why = VIOLATION, f"threshold `{rt[:100]}` ignores distance_factor"
             else:
-                okc = True
-    obs.append(ctx.ob("R15.4", fr, rets[0] if rets else fr.node, status=OK if okc else VIOLATION, detail="seed iff distance > mean(finite distances) x distance_factor (x correction)" if okc else f"_find_root_nodes: {why}", construct="cut"))
+                why = f"cannot relate threshold `{rt[:100]}` to mean(finite distances) x distance_factor"
+    obs.append(ctx.ob("R15.4", fr, rets[0] if rets else fr.node, status=st_c, detail="seed iff distance > mean(finite distances) x distance_factor (x correction)" if st_c == OK else f"_find_root_nodes: {why}", construct="cut"))
     cl = nbc.methods["cluster"]
     calls = [norm(c.func) for c in body_walk(cl.node) if isinstance(c, ast.Call)]
     okcl = f"{cl.self_name()}._prepare_spanning_tree" in calls and f"{cl.self_name()}._find_root_nodes" in calls
-    obs.append(ctx.ob("R15.4", cl, cl.node, status=OK if okcl else VIOLATION, detail="cluster() = build the spanning tree, then cut" if okcl else "cluster() no longer builds the tree and applies the cut", construct="cluster"))
+    obs.append(ctx.ob("R15.4", cl, cl.node, status=OK if okcl else INCONCLUSIVE, detail="cluster() = build the spanning tree, then cut" if okcl else "cluster() no longer builds the tree and applies the cut", construct="cluster"))
     return obs
 
 
